@@ -37,6 +37,10 @@ MUTATIONS = [
     ("dask_expr/_repartition.py", "            new_name = self.frame._name\n", "            new_name = self._name\n", "vf.contracts.layers:SizeLayer", "post:K1-outputs-concat-range"),
     ("dask_expr/_repartition.py", "            j = 0\n            for i, k in enumerate(self._nsplits):\n                if k == 1:\n                    dsk[new_name, j] = (df._name, i)", "            j = 0\n            for i, k in enumerate(self._nsplits):\n                if k == 1:\n                    dsk[new_name, j] = (df._name, j)", "vf.contracts.layers:SizeLayer", "post:dataflow-split-in-order"),
     ("dask_expr/_repartition.py", "                    dsk[split_name, i] = (split_evenly, (df._name, i), k)\n                    for jj in range(k):", "                    dsk[split_name, i] = (split_evenly, (df._name, i), k)\n                    for jj in range(k - 1):", "vf.contracts.layers:SizeLayer", "inv-preserved:loop0"),
+    ("dask_expr/io/parquet.py", "        if last_max is not None and file_min <= last_max:", "        if last_max is not None and file_min < last_max:", "vf.contracts.parquet_stats:DivisionsFromStatistics", "inv-preserved:loop0"),
+    ("dask_expr/io/parquet.py", "        divisions.append(file_min)\n        last_max = file_max", "        divisions.append(file_min)\n        last_max = file_min", "vf.contracts.parquet_stats:DivisionsFromStatistics", "inv-preserved:loop0"),
+    ("dask_expr/io/parquet.py", "    divisions.append(last_max)\n    return tuple(divisions), argsort", "    divisions.append(file_min)\n    return tuple(divisions), argsort", "vf.contracts.parquet_stats:DivisionsFromStatistics", "post:known-divisions-are-truthful"),
+    ("dask_expr/io/parquet.py", "            # index ranges of two files overlap: divisions are not known\n            return tuple([None] * (len(aggregated_stats) + 1)), None", "            # index ranges of two files overlap: divisions are not known\n            return tuple([None] * len(aggregated_stats)), None", "vf.contracts.parquet_stats:DivisionsFromStatistics", "post:unknown-divisions-are-all-None"),
     ("dask_expr/_repartition.py", "        nsplits[-1] += mod\n", "        nsplits[0] += mod\n", "vf.contracts.layers:MoreNSplits", "post:"),
     ("dask_expr/_repartition.py", "        return (None,) * (1 + sum(self._nsplits))", "        return (None,) * (1 + len(self._nsplits))", "vf.contracts.layers:MoreDivisions", "post:length-new+1"),
     ("dask_expr/io/io.py", "        for part, k in enumerate(self.operand(\"keys\")):\n            dsk[(self._name, part)] = k", "        for part, k in enumerate(sorted(self.operand(\"keys\"))):\n            dsk[(self._name, part)] = k", "vf.contracts.layers:FromGraphLayer", "HARMLESS-OR-UNDECIDED"),
